@@ -128,3 +128,16 @@ func ResultsJSON(rs []*ovsdb.OperationResult) string {
 func PinUUIDs(seed int64) {
 	uuid.SetRand(mrand.New(mrand.NewSource(seed)))
 }
+
+// DecodeRawOps decodes operations given as JSON texts.
+func DecodeRawOps(raw []json.RawMessage) ([]ovsdb.Operation, error) {
+	out := make([]ovsdb.Operation, 0, len(raw))
+	for _, r := range raw {
+		var op ovsdb.Operation
+		if err := json.Unmarshal(r, &op); err != nil {
+			return nil, fmt.Errorf("operation %s: %w", r, err)
+		}
+		out = append(out, op)
+	}
+	return out, nil
+}
